@@ -442,7 +442,15 @@ pub struct Universe {
     pub armed: Cell<bool>,
     /// evaluations while disarmed (oracle side), for the evidence only
     pub oracle_evals: Cell<u64>,
+    /// fault injection: logical nodes whose `type_info()` unwinds at its
+    /// first armed evaluation (a transient failure of user code in the middle
+    /// of a registration)
+    pub unwind_once: RefCell<Vec<u8>>,
+    pub unwinds: Cell<u32>,
 }
+
+/// Payload of an injected unwind, to tell it from a genuine panic.
+pub struct InjectedUnwind(pub u8);
 
 thread_local! {
     static UNI: RefCell<Option<Rc<Universe>>> = const { RefCell::new(None) };
@@ -472,6 +480,8 @@ pub fn install(specs: Vec<NodeSpec>, perm: [u8; K]) {
         counters: std::array::from_fn(|_| Cell::new(0)),
         armed: Cell::new(false),
         oracle_evals: Cell::new(0),
+        unwind_once: RefCell::new(Vec::new()),
+        unwinds: Cell::new(0),
     };
     UNI.with(|x| *x.borrow_mut() = Some(Rc::new(u)));
 }
@@ -500,6 +510,15 @@ pub fn reset_counters() {
     for c in u.counters.iter() {
         c.set(0);
     }
+}
+
+/// Arm the unwind fault for these logical nodes (each fires once).
+pub fn plan_unwinds(nodes: &[u8]) {
+    *uni().unwind_once.borrow_mut() = nodes.to_vec();
+}
+
+pub fn unwinds_fired() -> u32 {
+    uni().unwinds.get()
 }
 
 pub fn spec_of(logical: u8) -> NodeSpec {
@@ -587,6 +606,21 @@ fn definition_of(c: usize) -> Type {
     let l = u.inv[c] as usize;
     if u.armed.get() {
         u.counters[l].set(u.counters[l].get() + 1);
+        let fire = {
+            let mut plan = u.unwind_once.borrow_mut();
+            match plan.iter().position(|&x| x as usize == l) {
+                Some(i) => {
+                    plan.swap_remove(i);
+                    true
+                }
+                None => false,
+            }
+        };
+        if fire {
+            u.unwinds.set(u.unwinds.get() + 1);
+            drop(u);
+            std::panic::resume_unwind(Box::new(InjectedUnwind(l as u8)));
+        }
     } else {
         u.oracle_evals.set(u.oracle_evals.get() + 1);
     }
